@@ -18,10 +18,12 @@ func suiteFor(lits ...CfgLit) []vlib.Req {
 	oset := map[string]bool{"https://unlisted.example": true, "null": true, "https://a.b/": true, "": true, "https://[a.b]": true}
 	mset := map[string]bool{"GET": true, "PUT": true, "put": true, "DELETE": true, "ZAP": true}
 	hset := map[string]bool{"": true, "x-unlisted": true, "authorization": true}
+	primary := map[string]bool{"https://unlisted.example": true} // origins that get the full method / header lists
 	for _, l := range lits {
 		for _, p := range l.Origins {
 			if p == "*" {
 				oset["https://anything.example"] = true
+				primary["https://anything.example"] = true
 				continue
 			}
 			scheme, host, port, ok := ref.SplitOrigin(p)
@@ -51,6 +53,11 @@ func suiteFor(lits ...CfgLit) []vlib.Req {
 				}
 			}
 			oset[other+"://"+base+ports[0]] = true
+			if strings.HasPrefix(host, "*.") {
+				primary[scheme+"://x."+base+ports[0]] = true // an instance the pattern allows
+			} else {
+				primary[scheme+"://"+base+ports[0]] = true
+			}
 		}
 		for _, m := range l.Methods {
 			if m != "*" {
@@ -92,20 +99,25 @@ func suiteFor(lits ...CfgLit) []vlib.Req {
 		suite = append(suite, vlib.Req{Method: m})
 		suite = append(suite, vlib.Req{Method: m, Hdr: map[string][]string{"Access-Control-Request-Method": {"PUT"}}})
 	}
-	for _, o := range origins {
-		// actual requests
+	for i, o := range origins {
+		// actual requests and a plain preflight for every origin
 		suite = append(suite, vlib.Req{Method: "GET", Hdr: map[string][]string{"Origin": {o}}})
 		suite = append(suite, vlib.Req{Method: "OPTIONS", Hdr: map[string][]string{"Origin": {o}}})
-		// preflights: every method, no headers
-		for _, m := range methods {
-			suite = append(suite, vlib.Req{Method: "OPTIONS", Hdr: map[string][]string{"Origin": {o}, "Access-Control-Request-Method": {m}}})
-		}
-		// preflights: every header line with an allowed-looking method, with and without ACRPN
-		for _, h := range hdrs {
-			suite = append(suite, vlib.Req{Method: "OPTIONS", Hdr: map[string][]string{"Origin": {o}, "Access-Control-Request-Method": {"GET"}, "Access-Control-Request-Headers": {h}}})
-		}
+		suite = append(suite, vlib.Req{Method: "OPTIONS", Hdr: map[string][]string{"Origin": {o}, "Access-Control-Request-Method": {"GET"}}})
 		suite = append(suite, vlib.Req{Method: "OPTIONS", Hdr: map[string][]string{"Origin": {o}, "Access-Control-Request-Method": {"GET"}, "Access-Control-Request-Private-Network": {"true"}}})
 		suite = append(suite, vlib.Req{Method: "OPTIONS", Hdr: map[string][]string{"Origin": {o}, "Access-Control-Request-Method": {methods[len(methods)-1]}, "Access-Control-Request-Headers": {hdrs[len(hdrs)-1], hdrs[0]}, "Access-Control-Request-Private-Network": {"true"}}})
+		// the method and header steps do not depend on which origin passed the origin step: one allowed
+		// instance per pattern, one unlisted origin and every seventh other origin get the full lists
+		if primary[o] || i%7 == 0 {
+			for _, m := range methods {
+				suite = append(suite, vlib.Req{Method: "OPTIONS", Hdr: map[string][]string{"Origin": {o}, "Access-Control-Request-Method": {m}}})
+			}
+		}
+		if primary[o] || i%7 == 0 {
+			for _, h := range hdrs {
+				suite = append(suite, vlib.Req{Method: "OPTIONS", Hdr: map[string][]string{"Origin": {o}, "Access-Control-Request-Method": {"GET"}, "Access-Control-Request-Headers": {h}}})
+			}
+		}
 	}
 	return suite
 }
